@@ -257,12 +257,15 @@ static void run_e(int bound)
 }
 
 /* ---------------------------------------------------------------- (G) short life cycles from two threads, one close() of the library interrupted */
+static int g_err_to_out; /* the children get their stderr merged into their stdout: one descriptor serves two streams inside the library */
+
 static void *body_g(void *arg)
 {
   struct tb *t = arg;
   t->p = reproc_new();
   reproc_options o;
   memset(&o, 0, sizeof o);
+  if (g_err_to_out) o.redirect.err.type = REPROC_REDIRECT_STDOUT;
   vk_script("");
   vk_api_seq = 5000 + t->id;
   int r = reproc_start(t->p, hx_helper_argv(), o);
@@ -283,8 +286,9 @@ static void *body_g(void *arg)
   return NULL;
 }
 
-static void run_g(void)
+static void run_g(int err_to_out)
 {
+  g_err_to_out = err_to_out;
   memset(&vk_cfg, 0, sizeof vk_cfg);
   vk_cfg.sched_on = 1;
   vk_cfg.sched_bound = 1;
@@ -292,15 +296,17 @@ static void run_g(void)
   vk_cfg.hello_lite = 1;
   /* one close() of the library is interrupted (the descriptor is gone all the same, as on Linux): what a thread does about it must not touch a
    * number the other thread has been handed in the meantime */
-  vk_cfg.faults_on = 1;
-  vk_cfg.fault_bound = 1;
-  vk_cfg.fault_calls = 1ull << C_CLOSE;
-  vk_cfg.total_bound = 2;
-  snprintf(key, sizeof key, "h_c20|short-life-cycles|threads=2|preemptions<=1|one-interrupted-close");
+  if (!err_to_out) {
+    vk_cfg.faults_on = 1;
+    vk_cfg.fault_bound = 1;
+    vk_cfg.fault_calls = 1ull << C_CLOSE;
+    vk_cfg.total_bound = 2;
+  }
+  snprintf(key, sizeof key, "h_c20|short-life-cycles|threads=2|preemptions<=1|%s", err_to_out ? "stderr-to-stdout" : "one-interrupted-close");
   hx_desc("%s", key);
-  snprintf(key, sizeof key, "h_c20|short-life-cycles|one-interrupted-close");
+  snprintf(key, sizeof key, "h_c20|short-life-cycles|%s", err_to_out ? "stderr-to-stdout" : "one-interrupted-close");
   hx_begin();
-  vk_faults_armed = 1;
+  vk_faults_armed = !err_to_out;
   static struct tb t[2];
   memset(t, 0, sizeof t);
   int idx[2];
@@ -488,7 +494,7 @@ static void run_c(void)
   vk_thread_join(b);
 }
 
-static long c20_n(int tier) { return tier ? 9 : 8; }
+static long c20_n(int tier) { return tier ? 10 : 9; }
 static void c20_run(int tier, long cfg)
 {
   switch (cfg) {
@@ -498,9 +504,10 @@ static void c20_run(int tier, long cfg)
     case 3: run_b(2, 1, 1); break;
     case 4: run_d(tier ? 2 : 1); break;
     case 5: run_e(tier ? 2 : 1); break;
-    case 6: run_g(); break;
+    case 6: run_g(0); break;
     case 7: run_h(tier ? 3 : 2); break;
-    case 8: run_b(3, 0, 0); break; /* three threads: every free alternative (blocked calls, joins, exits), no preemption */
+    case 8: run_g(1); break;
+    case 9: run_b(3, 0, 0); break; /* three threads: every free alternative (blocked calls, joins, exits), no preemption */
   }
 }
 
